@@ -48,12 +48,20 @@ func TestVerifC16(t *testing.T) {
 			// a tree with heavy duplication
 			root := w.newDir("src")
 			nContents := tp.Range(1, 4)
+			if cfg.IndexFull > 0 && tp.Choose(2) == 0 {
+				// enough distinct blobs for the in-memory index to become full (and be saved and merged)
+				// while further copies of already saved content are still being submitted
+				nContents = tp.Range(5, 14)
+			}
 			var contents [][]byte
 			for i := 0; i < nContents; i++ {
 				sz := []int{1, 300, 5000, 40000, 70000}[tp.Choose(5)]
 				contents = append(contents, w.newFile("x", sz, tp.Choose(3)).Data)
 			}
 			nFiles := tp.Range(2, 24)
+			if nContents > 4 {
+				nFiles = tp.Range(20, 48)
+			}
 			sub := w.newDir("dup")
 			for i := 0; i < nFiles; i++ {
 				f := w.newFile(fmt.Sprintf("f%02d", i), 0, 0)
